@@ -63,7 +63,15 @@ WriteT(i, d, al) ==
           /\ comp' = [comp EXCEPT ![i] = d]
           /\ nc'   = [nc EXCEPT ![i] = None]
           /\ UNCHANGED <<logs, mode>>
-Write(i, d, al) == WriteT(i, d, al) /\ Log("Write", <<i, d, al>>)
+(* Append mode over an identifier that only has a NOT-COMPLETED record: the two store kinds differ, deliberately.  A   *)
+(* store whose completed and not-completed records SHARE their identifier (sqlite: one row per id) refuses - the id   *)
+(* exists, append never overwrites; a store that keeps them under SEPARATE member names (directory: x.suffix and      *)
+(* not_completed/x.json) completes the record and retires the failure record (re-running a composed app relies on     *)
+(* it).  WriteT allows both; the emitted transition says which kind of store it is a behaviour of.                    *)
+WriteKind(i) == IF mode = "a" /\ comp[i] = None /\ nc[i] # None
+                THEN (IF ret' = "raised" THEN "shared-identifiers" ELSE "separate-identifiers")
+                ELSE "any"
+Write(i, d, al) == WriteT(i, d, al) /\ Emit([from |-> St, act |-> "Write", args |-> <<i, d, al>>, to |-> StP, ret |-> ret', obs |-> WriteKind(i)])
 
 (* write_not_completed(unique_id=i, data=d) *)
 WriteNCT(i, d, al) ==
